@@ -201,6 +201,8 @@ def probe_corpus():
         files = [(v["fname"], v["text"]) for v in carriers.violating("quick", per_op=1)]
         files += [(c["fname"], c["text"]) for c in carriers.conforming("quick", cap=40)]
         files += [(e["fname"], e["text"]) for e in diffcommon.enriched()] + c08.dense_family()
+        from .. import corpus
+        files += list(corpus.samples())      # sample inputs of norminette's own tests (constructs outside the model)
         h = header42.header_text("spin.c") + "\n"
         files.append(("spin.c", h + "void\tft_wait(int *flag)\n{\n\twhile (*flag) /* wait */\n\t\t;\n}\n"))
         files.append(("decl.c", h + "static int /* c */\tg_x;\n\nint\tmain(void)\n{\n\tint\t// c\n\t\ti;\n\n\treturn (0);\n}\n"))
